@@ -178,7 +178,11 @@ def gen_history(H, X, rng, fams, idx: int, nchunks: int = 4):
 
         def do(line):
             lines.append(line)
-            o = r.run_line(line, file_rng)
+            try:
+                o = r.run_line(line, file_rng)
+            except H.SchedulerStuck as e:
+                e.lines = [x for x in lines if not x.startswith(("expr", "key"))]
+                raise
             if o is not None:
                 replies.append(o)
                 if " ret:" in o:
@@ -343,13 +347,27 @@ class C16Property:
         deep = bool(chk.broken) or tier == "thorough"
         srng = common.rng_for("C16", seed, "search")
         try:
-            sel = fams if deep else {k: fams[k] for k in ("width_phsp", "breakup_assumptions", "pick_larger", "single_kallen")}
+            sel = fams if deep else {k: fams[k] for k in ("width_phsp", "breakup_assumptions", "pick_larger", "single_kallen",
+                                                          "odd_names_assumptions", "odd_names", "width_named")}
             for f in S.sequential(chk, srng, None if deep else 12, sel, modes=("sha", "seed0", "seed424242") if deep else ("sha", "seed0")):
                 failing.append(({"class": f["what"]}, {"input": f}))
         except common.InfraError:
             raise
         except Exception as e:  # noqa: BLE001
             failing.append(({"class": "oracle crashed"}, {"input": {"what": "the sequential oracle itself failed", "error": "".join(traceback.format_exception(type(e), e, e.__traceback__))[-1200:]}}))
+        try:
+            sel1 = {k: fams[k] for k in (fams if deep else ("width_phsp", "breakup_assumptions", "pick_larger", "single_kallen",
+                                                            "odd_names_assumptions", "width_named"))}
+            for f in S.one_process_histories(chk, srng, sel1, modes=("sha", "seed0")):
+                failing.append(({"class": f["what"]}, {"input": f}))
+            dfails, dinfo = S.default_directory(chk)
+            chk.info("default_directory", dinfo)
+            for f in dfails:
+                failing.append(({"class": f["what"]}, {"input": f}))
+        except common.InfraError:
+            raise
+        except Exception as e:  # noqa: BLE001
+            failing.append(({"class": "oracle crashed"}, {"input": {"what": "the one-process / default-directory oracle itself failed", "error": "".join(traceback.format_exception(type(e), e, e.__traceback__))[-1200:]}}))
         phase("sequential oracle")
         if variant != FIXED:
             try:
@@ -443,7 +461,15 @@ class C16Property:
                 "files": {}, "modes": {}, "families": {}}
         # a) random interleaved histories
         for i in range(N_HIST[tier]):
-            table, lines, replies, excs, meta = gen_history(H, X, rng, fams, i, nchunks)
+            try:
+                table, lines, replies, excs, meta = gen_history(H, X, rng, fams, i, nchunks)
+            except H.SchedulerStuck as e:
+                failing.append(({"class": "scripted history: a call got stuck"},
+                                {"input": {"what": "a call of the real perform_cached_doit did not advance under the scheduler",
+                                           "history_index": i, "seed_stream": "corr", "error": str(e),
+                                           "partial_history": getattr(e, "lines", None)}}))
+                chk.broken_correspondence("history", {"kind": "random", "index": i, "error": str(e)})
+                break
             batch_hist.append(lines)
             batch_real.append(replies)
             batch_meta.append({"kind": "random", **meta, "table": table, "excs": excs})
@@ -467,7 +493,14 @@ class C16Property:
         # b) a caller dies after exactly k bytes
         crash_ks = []
         for table, lines, cuts, k, n in crash_byte_histories(H, X, rng, fams, tier == "thorough", nchunks):
-            replies, excs = run_history_real(H, table, lines, rng, cuts=cuts, nchunks=nchunks)
+            try:
+                replies, excs = run_history_real(H, table, lines, rng, cuts=cuts, nchunks=nchunks)
+            except H.SchedulerStuck as e:
+                failing.append(({"class": "scripted history: a call got stuck"},
+                                {"input": {"what": f"a caller died after {k} of {n} bytes; a later call did not advance",
+                                           "history": [x for x in lines if not x.startswith(("expr", "key"))], "error": str(e)}}))
+                chk.broken_correspondence("history", {"kind": f"crash after {k} bytes", "error": str(e)})
+                break
             batch_hist.append(lines)
             batch_real.append(replies)
             batch_meta.append({"kind": f"crash after {k} of {n} bytes", "table": table, "excs": excs, "index": len(batch_hist)})
